@@ -267,7 +267,10 @@ def explore_cfg(cfg, acc, tier):
             fails.append(("aggregate-cfg", {"cfg": cfg}, "ordering-not-random", "%s: only %d of the %d (node, position) pairs occur among the orderings" % (desc(cfg), len(positions), p * p)))
 
     # ---- phase B: weight cells, single deviations from the all-present baseline (two permutations)
-    if cfg["range"][0] != cfg["range"][1] and (prob is None or prob > 0):
+    # (only when the implementation draws its weights through uniform(w_min, w_max) cells; weights produced in another legitimate way -
+    # e.g. w_min + (w_max - w_min) * rng.random() - are judged on their range only)
+    has_weight_cells = any(pt["kind"] == "uniform" and pt["menu"] == 3 for pt in pts0)
+    if has_weight_cells and cfg["range"][0] != cfg["range"][1] and (prob is None or prob > 0):
         runs = {}
         tape.explore(runner("L", lambda prefix, info: runs.__setitem__(tuple(prefix), info)), bound=1, branch=is_weight, stop=crashed)
         base = runs.get(())
